@@ -32,7 +32,7 @@ func runC18(c *core.Ctx) {
 	ruleDecodeExclusive(c)
 	ruleReaderImmutable(c)
 	rulePackageState(c)
-	ruleNoForeignAppend(c)
+	ruleNoForeignAppend(c, "C18-R7", 8, "pdf")
 }
 
 // accessesField lists the vertices of g that mention field `field` of pdf.Extractor.
@@ -867,11 +867,14 @@ var readerStoreJustified = map[string]string{}
 // like the security handler's key — writes the same memory.  In package pdf
 // every append whose first argument is a struct field is assigned back to
 // that field.
-func ruleNoForeignAppend(c *core.Ctx) {
-	c.Check("C18-R7", "pdf/append-to-fields", "every append to a struct field's slice is assigned back to the same field (no goroutine-shared backing array is written through a temporary)", func(o *core.Ob) {
-		pkg := c.Prog.Pkg("pdf")
+func ruleNoForeignAppend(c *core.Ctx, rule string, floor int, pkgs ...string) {
+	c.Check(rule, strings.Join(pkgs, ",")+"/append-to-fields", "every append to a struct field's slice is assigned back to the same field (no shared backing array is written through a temporary)", func(o *core.Ob) {
 		n := 0
-		for _, fn := range c.Prog.Funcs(pkg) {
+		var fns []*core.Func
+		for _, sp := range pkgs {
+			fns = append(fns, c.Prog.Funcs(c.Prog.Pkg(sp))...)
+		}
+		for _, fn := range fns {
 			info := fn.Info()
 			assigned := map[*ast.CallExpr]ast.Expr{}
 			ast.Inspect(fn.Decl.Body, func(m ast.Node) bool {
@@ -916,6 +919,7 @@ func ruleNoForeignAppend(c *core.Ctx) {
 				return true
 			})
 		}
-		o.Require(n >= 8, "only %d appends to fields found", n)
+		o.Count(1)
+		o.Require(n >= floor, "only %d appends to fields found", n)
 	})
 }
